@@ -15,13 +15,14 @@ use xtmodel::{is_blank, ModelErr, TokDe};
 #[derive(Debug)]
 pub enum Error {
 	Io(io::Error),
+	IoWrite,
 	Syntax,
 	Eof,
 	Custom,
 }
 impl Error {
 	pub fn is_io(&self) -> bool {
-		matches!(self, Error::Io(_))
+		matches!(self, Error::Io(_) | Error::IoWrite)
 	}
 }
 impl From<Error> for io::Error {
@@ -44,7 +45,10 @@ impl serde::ser::Error for Error {
 	fn custom<T: fmt::Display>(_: T) -> Self { Error::Custom }
 }
 impl ModelErr for Error {
-	fn io(e: io::Error) -> Self { Error::Io(e) }
+	fn io(e: io::Error) -> Self {
+		std::mem::forget(e); // serializer-side: the payload is never inspected by xt
+		Error::IoWrite
+	}
 	fn syntax() -> Self { Error::Syntax }
 }
 pub type Result<T> = std::result::Result<T, Error>;
